@@ -185,7 +185,7 @@ def split_args(toks, o, c):
     return args
 
 
-def r4_format(text, int_args=()):
+def r4_format(text, int_args=(), chars=()):
     """format!("..{}..", a, b) with only `{}` holes -> vx_concatN(..); anything else -> vx_opaque_string()."""
     toks = lex(text)
     edits, log = [], []
@@ -208,7 +208,10 @@ def r4_format(text, int_args=()):
                             items.append('"%s"' % p[1])
                         else:
                             a = rest[ri].strip(); ri += 1
-                            items.append('&' + a if not a.startswith('&') else a)
+                            if a in chars:
+                                items.append('&vx_char_to_string(%s)' % a)
+                            else:
+                                items.append('&' + a if not a.startswith('&') else a)
                     if 1 <= len(items) <= 5:
                         rep = 'vx_concat%d(%s)' % (len(items), ', '.join(items))
             if rep is None:
@@ -341,6 +344,27 @@ def r_method_shims(text, chars=(), clone_shims=None):
                 text = text[:s] + rep + text[e:]
                 changed = True
                 break
+            # X.trim() / X.starts_with(A) / X.ends_with(A) / X.contains(A) on strings (A a char or str literal)
+            if t[0] == 'id' and t[1] in ('trim', 'starts_with', 'ends_with', 'contains', 'trim_end') and k >= 2 and is_p(toks[k - 1], '.') \
+                    and k + 1 < n and is_p(toks[k + 1], '('):
+                c = match_close(toks, k + 1)
+                arg = text[toks[k + 1][3]:toks[c][2]].strip()
+                ls = operand_start(toks, k - 2)
+                recv = text[toks[ls][2]:toks[k - 2][3]]
+                r = recv if recv.startswith('&') else '&' + recv
+                rep = None
+                if t[1] in ('trim', 'trim_end') and arg == '':
+                    rep = 'vx_%s(%s)' % (t[1], r)
+                elif t[1] != 'trim' and (arg.startswith("'") or arg in chars):
+                    rep = 'vx_%s_char(%s, %s)' % (t[1], r, arg)
+                elif t[1] != 'trim' and arg.startswith('"'):
+                    rep = 'vx_%s_str(%s, %s)' % (t[1], r, arg)
+                if rep is not None:
+                    s, e = toks[ls][2], toks[c][3]
+                    log.append({'rule': 'R12', 'before': text[s:e], 'after': rep})
+                    text = text[:s] + rep + text[e:]
+                    changed = True
+                    break
             # configured clone shims:  X.clone()  where X text is a key
             if t[0] == 'id' and t[1] == 'clone' and k >= 2 and is_p(toks[k - 1], '.') and k + 2 < n \
                     and is_p(toks[k + 1], '(') and is_p(toks[k + 2], ')'):
@@ -462,10 +486,20 @@ def r1_for_desugar(text, loop_kinds=None, chars_fn='vx_chars'):
         elif m_enum_chars:
             v = '__v%d' % n
             names = [p.strip() for p in pat.strip()[1:-1].split(',')]
-            pre = 'let %s: Vec<char> = %s(%s); let mut %s: usize = 0; ' % (v, chars_fn, m_enum_chars.group(1), iv)
+            src_e = m_enum_chars.group(1)
+            pre = 'let %s: Vec<char> = %s(%s); let mut %s: usize = 0; ' % (v, chars_fn, src_e if src_e.startswith('&') else '&' + src_e, iv)
             cond = '%s < %s.len()' % (iv, v)
             body = 'let %s = %s; let %s = %s[%s]; %s += 1;' % (names[0], iv, names[1], v, iv, iv)
-            auto = {'invariant': ['%s <= %s.len()' % (iv, v)], 'decreases': '%s.len() - %s' % (v, iv)}
+            auto = {'invariant': ['%s <= %s.len()' % (iv, v), '%s@ == %s@' % (v, m_enum_chars.group(1).strip())],
+                    'decreases': '%s.len() - %s' % (v, iv)}
+        elif re.match(r'^(.*)\.chars\(\)$', expr, re.S):
+            src_e = re.match(r'^(.*)\.chars\(\)$', expr, re.S).group(1)
+            v = '__v%d' % n
+            pre = 'let %s: Vec<char> = %s(%s); let mut %s: usize = 0; ' % (v, chars_fn, src_e if src_e.startswith('&') else '&' + src_e, iv)
+            cond = '%s < %s.len()' % (iv, v)
+            body = 'let %s = %s[%s]; %s += 1;' % (pat.strip(), v, iv, iv)
+            auto = {'invariant': ['%s <= %s.len()' % (iv, v), '%s@ == %s@' % (v, src_e.strip())],
+                    'decreases': '%s.len() - %s' % (v, iv)}
         elif m_enum and kind != 'value':
             x = m_enum.group(1)
             names = [p.strip() for p in pat.strip()[1:-1].split(',')]
